@@ -261,7 +261,7 @@ Qed.
 
 (* ------------------------------------------------------------------ 2. failed / missing / skipped inputs *)
 
-Lemma decide_bad_input_never_runs x c prior ins outs :
+Lemma decide_failed_input_never_runs x c prior ins outs :
   existsb is_bad (requested ins) = true -> decide x c prior ins outs <> DRun.
 Proof.
   intros B. rewrite decide_eq, B.
@@ -283,7 +283,7 @@ Proof.
 Qed.
 
 (* a failed / missing / skipped input: the command is skipped (true = a missing input, reported as a failure) *)
-Lemma decide_bad_input_skips x c prior ins outs :
+Lemma decide_failed_input_skips x c prior ins outs :
   existsb is_bad (requested ins) = true ->
   x_cancelled x = false -> c_phony c = false -> x_simulate x = false ->
   decide x c prior ins outs = DSkip (existsb is_missing_input (requested ins)).
@@ -292,7 +292,7 @@ Proof.
 Qed.
 
 (* whatever the flags, it is never completed as up to date *)
-Lemma decide_bad_input_never_updates x c prior ins outs :
+Lemma decide_failed_input_never_updates x c prior ins outs :
   existsb is_bad (requested ins) = true -> decide x c prior ins outs <> DUpdateOnly.
 Proof.
   intros B. rewrite decide_eq, (shortcut_false_bad x c prior ins outs B), B.
@@ -338,7 +338,7 @@ Proof. split; reflexivity. Qed.
 (* the code before repair a03bdd8 examined shouldSkip only after the shortcut: a command with unchanged
    hash whose output (stamp 5.0) is newer than its existing input (stamp 1.0) and whose second input is
    MISSING was completed as successful, and that value was valid on the next build *)
-Lemma decide_unrepaired_bad_input_refuted :
+Lemma decide_unrepaired_failed_input_refuted :
   exists x c prior ins outs,
     x_cancelled x = false /\ x_simulate x = false /\ c_phony c = false /\
     In (CExplicit, NMissingInput) ins /\
@@ -759,7 +759,7 @@ Example decide_hash_changed_runs_instance :
   decide ex_ctx (mkCmd 8 true false false false) (Some (NSuccessfulCommand 7 [ex_out])) ex_ins [ex_out] = DUpdateOnly.
 Proof. vm_compute. repeat split; auto; discriminate. Qed.
 
-Example decide_bad_input_skips_instance :
+Example decide_failed_input_skips_instance :
   let ins := [(CExplicit, NExistingInput ex_src); (CImplicit, NFailedCommand)] in
   existsb is_bad (requested ins) = true /\
   decide ex_ctx (ex_cmd 7) (Some (NSuccessfulCommand 7 [ex_out])) ins [ex_out] = DSkip false /\
